@@ -21,6 +21,28 @@ func (c *FnCtx) v(x ssa.Value) Val {
 
 // valFacts emits well-formedness facts for a freshly obtained value.
 func (c *FnCtx) valFacts(t string, s Sort, gt types.Type) {
+	c.valFactsW(t, s, gt, c.H("$wm"))
+}
+
+// valFactsW: like valFacts with an explicit watermark bound
+func (c *FnCtx) valFactsW(t string, s Sort, gt types.Type, wm string) {
+	switch s {
+	case SAny:
+		c.fact(fmt.Sprintf("(anywf %s %s)", t, wm))
+		return
+	case SInt:
+		if gt != nil {
+			switch types.Unalias(gt).Underlying().(type) {
+			case *types.Pointer, *types.Map, *types.Chan:
+				c.fact(fmt.Sprintf("(and (>= %s 0) (<= %s %s))", t, t, wm))
+				return
+			}
+		}
+	}
+	c.valFactsOld(t, s, gt)
+}
+
+func (c *FnCtx) valFactsOld(t string, s Sort, gt types.Type) {
 	switch s {
 	case SAny:
 		c.fact(fmt.Sprintf("(anywf %s %s)", t, c.H("$wm")))
@@ -646,7 +668,7 @@ func (c *FnCtx) lookup(x *ssa.Lookup) {
 	ok := c.nameBool(c.newName("has"), fmt.Sprintf("(and (not (= %s 0)) (select (select %s %s) %s))", a.T, d, a.T, k.T))
 	val := c.freshConst("mv", vs)
 	c.fact(fmt.Sprintf("(= %s (ite %s (select (select %s %s) %s) %s))", val, ok, m, a.T, k.T, c.M.Zero(vs)))
-	c.valFacts(val, vs, mt.Elem())
+	c.valFactsW(val, vs, mt.Elem(), c.loadWM(m))
 	var cands []Cand
 	if a.Table != nil {
 		cands = c.tableFacts(a.Table, ok, k.T, val, false)
@@ -763,7 +785,7 @@ func (c *FnCtx) next(x *ssa.Next) {
 	c.fact(fmt.Sprintf("(=> (not %s) (forall ((qk %s)) (! (=> (and (not (= %s 0)) (select (select %s %s) qk)) (select %s qk)) :pattern ((select (select %s %s) qk)) :pattern ((select %s qk)))))", ok, ks, m, dh, m, seen, dh, m, seen))
 	val := c.freshConst("nx_v", vs)
 	c.fact(fmt.Sprintf("(=> %s (= %s (select (select %s %s) %s)))", ok, val, mh, m, k))
-	c.valFacts(val, vs, mt.Elem())
+	c.valFactsW(val, vs, mt.Elem(), c.loadWM(mh))
 	if ks == SAny {
 		c.valFacts(k, ks, mt.Key())
 	}
